@@ -49,8 +49,11 @@ def list_of_float(arg, length):
 def list_or_int(arg, min=1, max=math.inf):
     """Used by argparse when the argument should be a list of ints or a int."""
     values = arg.split(",")
-    if len(values) == 1 and isinstance(arg, int):
-        return int(arg)
+    if len(values) == 1:
+        try:
+            return int(values[0])
+        except ValueError:
+            pass
     elif min <= len(values) <= max:
         try:
             return list(map(int, values))
